@@ -108,6 +108,156 @@ pub proof fn lemma_psum_bump(a: Seq<usize>, b: Seq<usize>, x: int, n: int)
 }
 ''')
 
+raw(r'''
+// ---------------------------------------------------------------------------------------------
+// edge multiplicities of an adjacency relation (ghost model for kahn and the relative indegrees)
+// ---------------------------------------------------------------------------------------------
+pub proof fn lemma_count_mono(s: Seq<usize>, v: int, lo: int, hi: int)
+    requires 0 <= lo <= hi <= s.len()
+    ensures 0 <= count(s, v, lo) <= count(s, v, hi)
+    decreases hi - lo
+{
+    if lo < hi { lemma_count_mono(s, v, lo, hi - 1); } else { lemma_count_bounds(s, v, lo); }
+}
+
+pub proof fn lemma_count_range_witness(s: Seq<usize>, v: int, lo: int, hi: int) -> (p: int)
+    requires 0 <= lo <= hi <= s.len(), count(s, v, hi) > count(s, v, lo)
+    ensures lo <= p < hi, s[p] == v
+    decreases hi - lo
+{
+    if s[hi - 1] == v { hi - 1 } else { lemma_count_range_witness(s, v, lo, hi - 1) }
+}
+
+pub proof fn lemma_count_range_pos(s: Seq<usize>, v: int, lo: int, hi: int, p: int)
+    requires 0 <= lo <= p < hi <= s.len(), s[p] == v
+    ensures count(s, v, hi) > count(s, v, lo)
+{
+    lemma_count_mono(s, v, lo, p);
+    lemma_count_mono(s, v, p + 1, hi);
+    assert(count(s, v, p + 1) == count(s, v, p) + 1);
+}
+
+/// equal windows contain equally many copies of v
+pub proof fn lemma_count_window(s1: Seq<usize>, lo1: int, s2: Seq<usize>, lo2: int, len: int, v: int)
+    requires 0 <= lo1, 0 <= lo2, 0 <= len, lo1 + len <= s1.len(), lo2 + len <= s2.len(),
+        s1.subrange(lo1, lo1 + len) == s2.subrange(lo2, lo2 + len),
+    ensures count(s1, v, lo1 + len) - count(s1, v, lo1) == count(s2, v, lo2 + len) - count(s2, v, lo2)
+    decreases len
+{
+    if len > 0 {
+        let a = s1.subrange(lo1, lo1 + len); let b = s2.subrange(lo2, lo2 + len);
+        assert(a[len - 1] == b[len - 1]);
+        assert(s1.subrange(lo1, lo1 + len - 1) =~= a.subrange(0, len - 1));
+        assert(s2.subrange(lo2, lo2 + len - 1) =~= b.subrange(0, len - 1));
+        lemma_count_window(s1, lo1, s2, lo2, len - 1, v);
+    }
+}
+
+/// multiplicity of the edge x -> y: the number of entries of segment x equal to y
+pub open spec fn seg_count(a: IndexedCoproduct<FiniteFunction>, x: int, y: int) -> int {
+    count(a.values.table@, y, psum(a.sources.table@, x + 1)) - count(a.values.table@, y, psum(a.sources.table@, x))
+}
+
+/// y is listed in segment x of the adjacency (x -> y)
+pub open spec fn edge_raw(sizes: Seq<usize>, vals: Seq<usize>, x: int, y: int) -> bool {
+    exists|j: int| 0 <= j < sizes[x] && #[trigger] vals[seg_at(sizes, x, j)] == y
+}
+pub open spec fn adj_edge(a: IndexedCoproduct<FiniteFunction>, x: int, y: int) -> bool {
+    edge_raw(a.sources.table@, a.values.table@, x, y)
+}
+
+pub proof fn lemma_seg_count_edge(a: IndexedCoproduct<FiniteFunction>, x: int, y: int)
+    requires adj_wf(a), 0 <= x < a.sources.table@.len()
+    ensures seg_count(a, x, y) >= 0, seg_count(a, x, y) > 0 <==> adj_edge(a, x, y)
+{
+    let s = a.sources.table@; let vals = a.values.table@;
+    lemma_psum_mono(s, 0, x); lemma_psum_mono(s, x + 1, s.len() as int);
+    assert(psum(s, x + 1) == psum(s, x) + s[x]);
+    lemma_count_mono(vals, y, psum(s, x), psum(s, x + 1));
+    if seg_count(a, x, y) > 0 {
+        let p = lemma_count_range_witness(vals, y, psum(s, x), psum(s, x + 1));
+        let j = p - psum(s, x);
+        assert(vals[seg_at(s, x, j)] == y);
+    }
+    if adj_edge(a, x, y) {
+        let j = choose|j: int| 0 <= j < s[x] && #[trigger] vals[seg_at(s, x, j)] == y;
+        lemma_count_range_pos(vals, y, psum(s, x), psum(s, x + 1), seg_at(s, x, j));
+    }
+}
+
+/// number of adjacency entries leading from the listed nodes f[0..m] to y
+pub open spec fn rel(a: IndexedCoproduct<FiniteFunction>, f: Seq<usize>, y: int, m: int) -> int
+    decreases m
+{
+    if m <= 0 { 0 } else { rel(a, f, y, m - 1) + seg_count(a, f[m - 1] as int, y) }
+}
+
+pub proof fn lemma_rel_nonneg(a: IndexedCoproduct<FiniteFunction>, f: Seq<usize>, y: int, m: int)
+    requires adj_wf(a), 0 <= m <= f.len(), in_bounds(f, a.sources.table@.len() as int)
+    ensures rel(a, f, y, m) >= 0
+    decreases m
+{
+    if m > 0 { lemma_rel_nonneg(a, f, y, m - 1); lemma_seg_count_edge(a, f[m - 1] as int, y); }
+}
+
+pub proof fn lemma_rel_witness(a: IndexedCoproduct<FiniteFunction>, f: Seq<usize>, y: int, m: int) -> (k: int)
+    requires adj_wf(a), 0 <= m <= f.len(), in_bounds(f, a.sources.table@.len() as int), rel(a, f, y, m) > 0
+    ensures 0 <= k < m, adj_edge(a, f[k] as int, y)
+    decreases m
+{
+    lemma_seg_count_edge(a, f[m - 1] as int, y);
+    if seg_count(a, f[m - 1] as int, y) > 0 { m - 1 } else { lemma_rel_witness(a, f, y, m - 1) }
+}
+
+pub proof fn lemma_rel_edge(a: IndexedCoproduct<FiniteFunction>, f: Seq<usize>, y: int, m: int, k: int)
+    requires adj_wf(a), 0 <= k < m <= f.len(), in_bounds(f, a.sources.table@.len() as int), adj_edge(a, f[k] as int, y)
+    ensures rel(a, f, y, m) > 0
+    decreases m
+{
+    lemma_seg_count_edge(a, f[m - 1] as int, y);
+    lemma_rel_nonneg(a, f, y, m - 1);
+    if k < m - 1 { lemma_rel_edge(a, f, y, m - 1, k); }
+}
+
+/// the values reached from f (as laid out by `indexed_values`) contain y exactly rel(a, f, y) times
+pub proof fn lemma_rel_count(a: IndexedCoproduct<FiniteFunction>, f: Seq<usize>, g: Seq<usize>, y: int, m: int)
+    requires adj_wf(a), 0 <= m <= f.len(), in_bounds(f, a.sources.table@.len() as int),
+        g.len() == total(kseq(a.sources.table@, f)),
+        forall|i: int, j: int| 0 <= i < f.len() && 0 <= j < kseq(a.sources.table@, f)[i] ==>
+            g[#[trigger] seg_at(kseq(a.sources.table@, f), i, j)] == a.values.table@[psum(a.sources.table@, f[i] as int) + j],
+    ensures count(g, y, psum(kseq(a.sources.table@, f), m)) == rel(a, f, y, m),
+        0 <= psum(kseq(a.sources.table@, f), m) <= g.len(),
+    decreases m
+{
+    let s = a.sources.table@; let vals = a.values.table@; let k = kseq(s, f);
+    lemma_psum_mono(k, 0, m); lemma_psum_mono(k, m, k.len() as int);
+    if m > 0 {
+        lemma_rel_count(a, f, g, y, m - 1);
+        let x = f[m - 1] as int;
+        let lo1 = psum(k, m - 1); let lo2 = psum(s, x); let len = s[x] as int;
+        assert(k[m - 1] == s[x]);
+        assert(psum(k, m) == lo1 + len);
+        assert(psum(s, x + 1) == lo2 + len);
+        lemma_psum_mono(s, 0, x); lemma_psum_mono(s, x + 1, s.len() as int);
+        let w1 = g.subrange(lo1, lo1 + len); let w2 = vals.subrange(lo2, lo2 + len);
+        assert forall|j: int| 0 <= j < len implies #[trigger] w1[j] == w2[j] by {
+            assert(g[seg_at(k, m - 1, j)] == vals[psum(s, f[m - 1] as int) + j]);
+        }
+        assert(w1 =~= w2);
+        lemma_count_window(g, lo1, vals, lo2, len, y);
+    }
+}
+
+/// relative to all nodes 0..n, in order, the count is the plain number of occurrences
+pub proof fn lemma_rel_identity(a: IndexedCoproduct<FiniteFunction>, f: Seq<usize>, y: int, m: int)
+    requires adj_wf(a), 0 <= m <= f.len(), f.len() == a.sources.table@.len(), forall|i: int| 0 <= i < f.len() ==> f[i] == i
+    ensures rel(a, f, y, m) == count(a.values.table@, y, psum(a.sources.table@, m))
+    decreases m
+{
+    if m > 0 { lemma_rel_identity(a, f, y, m - 1); }
+}
+''')
+
 fn(GR, 'filter', kind='free', status='P', props=['C15'],
    requires=['values@.len() == predicate@.len()', 'total(predicate@) <= usize::MAX'],
    ensures=[('C15.filter', 'r@.len() == total(predicate@) && (forall|i: int, j: int| 0 <= i < predicate@.len() && 0 <= j < predicate@[i] ==> r@[#[trigger] seg_at(predicate@, i, j)] == values@[i])')])
@@ -117,20 +267,35 @@ fn(GR, 'dense_relative_indegree', kind='free', status='P', props=['C15', 'C17', 
    requires=['adj_wf(*adjacency)', 'f.wf()', 'injective(f.table@)', 'f.target == adjacency.sources.table@.len()',
              'adjacency.values.table@.len() < usize::MAX', 'adjacency.sources.table@.len() < usize::MAX', 'f.table@.len() < usize::MAX'],
    ensures=[('C15.dense-indegree', 'r.table@.len() == adjacency.sources.table@.len() && r.target == adjacency.values.table@.len() + 1'),
-            ('C15.dense-indegree-wf', 'r.wf()')],
+            ('C15.dense-indegree-wf', 'r.wf()'),
+            ('C15.dense-indegree-counts', 'forall|y: int| 0 <= y < r.table@.len() ==> (#[trigger] r.table@[y]) == rel(*adjacency, f.table@, y, f.table@.len() as int)')],
    proofs=[('start', '''lemma_seg_wf_sources(adjacency.sources, adjacency.values.table@.len());
             lemma_injective_selection(adjacency.sources.table@, f.table@);'''),
-           ('before:FiniteFunction::new(table, target).unwrap()', '''assert forall|v: int| 0 <= v < table@.len() implies (#[trigger] table@[v]) < target by {
+           ('before:FiniteFunction::new(table, target).unwrap()', '''assert forall|v: int| 0 <= v < table@.len() implies (#[trigger] table@[v]) < target && table@[v] == rel(*adjacency, f.table@, v, f.table@.len() as int) by {
                 lemma_count_bounds(reached.table@, v, reached.table@.len() as int);
+                lemma_rel_count(*adjacency, f.table@, reached.table@, v, f.table@.len() as int);
             }''')])
 fn(GR, 'sparse_relative_indegree', kind='free', status='P', props=['C15', 'C17', 'C18', 'C20'],
    requires=['adj_wf(*a)', 'f.wf()', 'injective(f.table@)', 'f.target == a.sources.table@.len()',
              'a.values.table@.len() < usize::MAX', 'a.sources.table@.len() < usize::MAX', 'f.table@.len() < usize::MAX'],
    ensures=[('C15.sparse-indegree', 'r.0.table@.len() == r.1.table@.len() && r.0.target == a.sources.table@.len() && r.1.target == a.values.table@.len() + 1 && injective(r.0.table@)'),
-            ('C15.sparse-indegree-wf', 'r.0.wf() && r.1.wf()')],
+            ('C15.sparse-indegree-wf', 'r.0.wf() && r.1.wf()'),
+            ('C15.sparse-indegree-counts', 'forall|k: int| 0 <= k < r.0.table@.len() ==> (#[trigger] r.1.table@[k]) == rel(*a, f.table@, r.0.table@[k] as int, f.table@.len() as int) && r.1.table@[k] > 0'),
+            ('C15.sparse-indegree-sound', 'forall|k: int| 0 <= k < r.0.table@.len() ==> rel(*a, f.table@, (#[trigger] r.0.table@[k]) as int, f.table@.len() as int) > 0'),
+            ('C15.sparse-indegree-complete', 'forall|y: int| 0 <= y < a.sources.table@.len() && #[trigger] rel(*a, f.table@, y, f.table@.len() as int) > 0 ==> hit(r.0.table@, y, r.0.table@.len() as int)')],
    proofs=[('start', '''lemma_seg_wf_sources(a.sources, a.values.table@.len());
             lemma_injective_selection(a.sources.table@, f.table@);'''),
-           ('after:let (i, c) = g.table.sparse_bincount();', '''assert forall|k: int| 0 <= k < i@.len() implies (#[trigger] i@[k]) < a.sources.table@.len() by {
+           ('after:let (i, c) = g.table.sparse_bincount();', '''assert forall|y: int| #[trigger] rel(*a, f.table@, y, f.table@.len() as int) == count(g.table@, y, g.table@.len() as int) by {
+                lemma_rel_count(*a, f.table@, g.table@, y, f.table@.len() as int);
+            }
+            assert forall|y: int| 0 <= y < a.sources.table@.len() && #[trigger] rel(*a, f.table@, y, f.table@.len() as int) > 0 implies hit(i@, y, i@.len() as int) by {
+                let w = lemma_count_witness(g.table@, y, g.table@.len() as int);
+                assert(hit(i@, g.table@[w] as int, i@.len() as int));
+            }
+            assert forall|k: int| 0 <= k < i@.len() implies rel(*a, f.table@, (#[trigger] i@[k]) as int, f.table@.len() as int) > 0 by {
+                assert(c@[k] == count(g.table@, i@[k] as int, g.table@.len() as int) && c@[k] > 0);
+            }
+            assert forall|k: int| 0 <= k < i@.len() implies (#[trigger] i@[k]) < a.sources.table@.len() by {
                 lemma_count_bounds(g.table@, i@[k] as int, g.table@.len() as int);
                 assert(c@[k] == count(g.table@, i@[k] as int, g.table@.len() as int) && c@[k] > 0);
                 let w = lemma_count_witness(g.table@, i@[k] as int, g.table@.len() as int);
@@ -140,29 +305,322 @@ fn(GR, 'sparse_relative_indegree', kind='free', status='P', props=['C15', 'C17',
             }''')])
 fn(GR, 'indegree', kind='free', status='P', props=['C15', 'C17'],
    requires=['adj_wf(*adjacency)', 'adjacency.values.table@.len() < usize::MAX', 'adjacency.sources.table@.len() < usize::MAX'],
-   ensures=[('C15.indegree', 'r.table@.len() == adjacency.sources.table@.len() && r.wf()')])
+   ensures=[('C15.indegree', 'r.table@.len() == adjacency.sources.table@.len() && r.wf()'),
+            ('C15.indegree-counts', 'forall|y: int| 0 <= y < r.table@.len() ==> (#[trigger] r.table@[y]) == count(adjacency.values.table@, y, adjacency.values.table@.len() as int)')],
+   proofs=[('start', '''assert forall|f: Seq<usize>, y: int| f.len() == adjacency.sources.table@.len() && (forall|i: int| 0 <= i < f.len() ==> f[i] == i)
+                implies #[trigger] rel(*adjacency, f, y, f.len() as int) == count(adjacency.values.table@, y, adjacency.values.table@.len() as int) by {
+                lemma_rel_identity(*adjacency, f, y, f.len() as int);
+            }''')])
 
+
+raw(r'''
+// ---------------------------------------------------------------------------------------------
+// permutations, sorted arrays and the block structure of `converse`
+// ---------------------------------------------------------------------------------------------
+pub proof fn lemma_psum_pointwise_le(a: Seq<usize>, b: Seq<usize>, n: int)
+    requires 0 <= n <= a.len(), n <= b.len(), forall|i: int| 0 <= i < n ==> a[i] <= b[i]
+    ensures psum(a, n) <= psum(b, n)
+    decreases n
+{
+    if n > 0 { lemma_psum_pointwise_le(a, b, n - 1); }
+}
+
+/// pointwise <= with equal sums means equal
+pub proof fn lemma_psum_squeeze(a: Seq<usize>, b: Seq<usize>, n: int)
+    requires 0 <= n <= a.len(), n <= b.len(), forall|i: int| 0 <= i < n ==> a[i] <= b[i], psum(a, n) == psum(b, n)
+    ensures forall|i: int| 0 <= i < n ==> a[i] == b[i]
+    decreases n
+{
+    if n > 0 {
+        lemma_psum_pointwise_le(a, b, n - 1);
+        lemma_psum_squeeze(a, b, n - 1);
+    }
+}
+
+/// indicator of the positions holding v
+pub open spec fn ind(key: Seq<usize>, v: int) -> Seq<usize> { Seq::new(key.len(), |pos: int| if key[pos] == v { 1usize } else { 0usize }) }
+
+pub proof fn lemma_ind_total(key: Seq<usize>, v: int, n: int)
+    requires 0 <= n <= key.len()
+    ensures psum(ind(key, v), n) == count(key, v, n)
+    decreases n
+{
+    if n > 0 { lemma_ind_total(key, v, n - 1); }
+}
+
+/// re-indexing by an injection cannot create occurrences
+pub proof fn lemma_perm_count_le(key: Seq<usize>, p: Seq<usize>, v: int)
+    requires is_perm(p, key.len() as int)
+    ensures count(kseq(key, p), v, key.len() as int) <= count(key, v, key.len() as int)
+{
+    let n = key.len() as int;
+    lemma_injective_selection(ind(key, v), p);
+    assert(kseq(ind(key, v), p) =~= ind(kseq(key, p), v));
+    lemma_ind_total(key, v, n);
+    lemma_ind_total(kseq(key, p), v, n);
+}
+
+/// a permutation keeps the number of occurrences of every value
+pub proof fn lemma_perm_count(key: Seq<usize>, p: Seq<usize>, t: int, v: int)
+    requires is_perm(p, key.len() as int), in_bounds(key, t), key.len() <= usize::MAX, 0 <= v < t
+    ensures count(kseq(key, p), v, key.len() as int) == count(key, v, key.len() as int)
+{
+    let n = key.len() as int; let k2 = kseq(key, p);
+    assert forall|u: int| 0 <= u < t implies 0 <= #[trigger] count(k2, u, n) <= count(key, u, n) <= n by {
+        lemma_perm_count_le(key, p, u); lemma_count_bounds(key, u, n); lemma_count_bounds(k2, u, n);
+    }
+    let c1 = Seq::new(t as nat, |u: int| count(k2, u, n) as usize);
+    let c2 = Seq::new(t as nat, |u: int| count(key, u, n) as usize);
+    assert forall|i: int| 0 <= i < k2.len() implies (#[trigger] k2[i]) < t by { assert(key[p[i] as int] < t); }
+    assert forall|u: int| 0 <= u < t implies c2[u] == count(key, u, n) && c1[u] == count(k2, u, n) && c1[u] <= c2[u] by {
+        lemma_perm_count_le(key, p, u); lemma_count_bounds(key, u, n); lemma_count_bounds(k2, u, n);
+    }
+    lemma_counts_total(k2, c1, t, n);
+    lemma_counts_total(key, c2, t, n);
+    lemma_psum_squeeze(c1, c2, t);
+    assert(c1[v] == c2[v]);
+}
+
+pub proof fn lemma_count_identity(n: int, pos: int, m: int)
+    requires 0 <= pos < n, 0 <= m <= n, n <= usize::MAX
+    ensures count(Seq::new(n as nat, |i: int| i as usize), pos, m) == (if pos < m { 1int } else { 0int })
+    decreases m
+{
+    if m > 0 { lemma_count_identity(n, pos, m - 1); }
+}
+
+/// an injection of 0..n into itself hits everything
+pub proof fn lemma_perm_surjective(p: Seq<usize>, pos: int) -> (i: int)
+    requires is_perm(p, p.len() as int), p.len() <= usize::MAX, 0 <= pos < p.len()
+    ensures 0 <= i < p.len(), p[i] == pos
+{
+    let n = p.len() as int;
+    let id = Seq::new(n as nat, |i: int| i as usize);
+    lemma_perm_count(id, p, n, pos);
+    lemma_count_identity(n, pos, n);
+    assert(kseq(id, p) =~= p);
+    lemma_count_witness(p, pos, n)
+}
+
+/// number of positions i < n with k[i] < q
+pub open spec fn count_lt(k: Seq<usize>, q: int, n: int) -> int
+    decreases n
+{
+    if n <= 0 { 0 } else { count_lt(k, q, n - 1) + (if k[n - 1] < q { 1int } else { 0int }) }
+}
+
+/// ... is the sum of the counts of the values below q
+pub proof fn lemma_count_lt_sum(k: Seq<usize>, c: Seq<usize>, q: int, n: int)
+    requires 0 <= n <= k.len(), k.len() <= usize::MAX, 0 <= q <= c.len(), in_bounds(k, c.len() as int),
+        forall|v: int| 0 <= v < c.len() ==> c[v] == count(k, v, n),
+    ensures count_lt(k, q, n) == psum(c, q)
+    decreases n
+{
+    if n == 0 {
+        lemma_psum_const(c, 0usize, q);
+    } else {
+        let t = c.len() as int;
+        let c1 = Seq::new(t as nat, |v: int| count(k, v, n - 1) as usize);
+        assert forall|v: int| 0 <= v < t implies c1[v] == count(k, v, n - 1) by { lemma_count_bounds(k, v, n - 1); }
+        lemma_count_lt_sum(k, c1, q, n - 1);
+        lemma_psum_bump(c1, c, k[n - 1] as int, q);
+    }
+}
+
+/// in a sorted array the positions holding values below q form a prefix
+pub proof fn lemma_sorted_prefix(k: Seq<usize>, q: int, n: int)
+    requires 0 <= n <= k.len(), forall|i: int, j: int| 0 <= i < j < k.len() ==> k[i] <= k[j]
+    ensures 0 <= count_lt(k, q, n) <= n, forall|i: int| 0 <= i < n ==> ((#[trigger] k[i]) < q <==> i < count_lt(k, q, n))
+    decreases n
+{
+    if n > 0 {
+        lemma_sorted_prefix(k, q, n - 1);
+        if k[n - 1] < q {
+            if n - 1 > 0 { assert(k[n - 2] <= k[n - 1]); }
+        }
+    }
+}
+
+/// segment index of flat position m (searching the first n segments)
+pub open spec fn seg_of(s: Seq<usize>, m: int, n: int) -> int
+    decreases n
+{
+    if n <= 0 { 0 } else if psum(s, n - 1) <= m { n - 1 } else { seg_of(s, m, n - 1) }
+}
+
+pub proof fn lemma_seg_of(s: Seq<usize>, n: int, a: int, b: int)
+    requires 0 <= a < n <= s.len(), 0 <= b < s[a]
+    ensures seg_of(s, seg_at(s, a, b), n) == a
+    decreases n
+{
+    if a < n - 1 {
+        lemma_psum_mono(s, a + 1, n - 1);
+        lemma_seg_of(s, n - 1, a, b);
+    }
+}
+
+/// the array "segment index of every position" (what `sizes.repeat(arange)` builds)
+pub open spec fn seg_index_seq(s: Seq<usize>) -> Seq<usize> {
+    Seq::new(total(s) as nat, |m: int| seg_of(s, m, s.len() as int) as usize)
+}
+
+/// `converse`: q is listed under x in r  <==>  x is listed under q in the converse
+pub proof fn lemma_converse_edges(r: IndexedCoproduct<FiniteFunction>, out: IndexedCoproduct<FiniteFunction>, p: Seq<usize>)
+    requires r.wf(), out.wf(), r.values.table@.len() <= usize::MAX, r.sources.table@.len() <= usize::MAX,
+        out.sources.table@.len() == r.values.target, out.values.table@.len() == r.values.table@.len(),
+        forall|v: int| 0 <= v < r.values.target ==> out.sources.table@[v] == count(r.values.table@, v, r.values.table@.len() as int),
+        sorts(p, r.values.table@),
+        forall|i: int| 0 <= i < r.values.table@.len() ==> out.values.table@[i] == seg_index_seq(r.sources.table@)[p[i] as int],
+    ensures forall|q: int, x: int| 0 <= q < r.values.target && 0 <= x < r.sources.table@.len() ==> (#[trigger] adj_edge(out, q, x) <==> adj_edge(r, x, q))
+{
+    let sizes = r.sources.table@; let key = r.values.table@; let len = key.len() as int; let t = r.values.target as int;
+    let c = out.sources.table@; let k2 = kseq(key, p); let u = seg_index_seq(sizes);
+    assert(total(sizes) == len);
+    assert forall|i: int| 0 <= i < len implies (#[trigger] k2[i]) < t by { assert(key[p[i] as int] < t); }
+    assert forall|v: int| 0 <= v < t implies c[v] == count(k2, v, len) by { lemma_perm_count(key, p, t, v); }
+    assert forall|i: int, j: int| 0 <= i < j < k2.len() implies k2[i] <= k2[j] by {}
+    // position i of the sorted array lies in block q exactly when its key is q
+    assert forall|q: int, i: int| 0 <= q < t && 0 <= i < len implies ((#[trigger] k2[i]) == q <==> #[trigger] psum(c, q) <= i < psum(c, q + 1)) by {
+        lemma_count_lt_sum(k2, c, q, len); lemma_count_lt_sum(k2, c, q + 1, len);
+        lemma_sorted_prefix(k2, q, len); lemma_sorted_prefix(k2, q + 1, len);
+    }
+    assert forall|q: int, x: int| 0 <= q < t && 0 <= x < sizes.len() implies (#[trigger] adj_edge(out, q, x) <==> adj_edge(r, x, q)) by {
+        lemma_psum_mono(c, 0, q); lemma_psum_mono(c, q + 1, t);
+        assert(psum(c, q + 1) == psum(c, q) + c[q]);
+        assert(total(c) == len);
+        if adj_edge(out, q, x) {
+            let j = choose|j: int| 0 <= j < c[q] && #[trigger] out.values.table@[seg_at(c, q, j)] == x;
+            let i = seg_at(c, q, j);
+            assert(k2[i] == q);
+            let pos = p[i] as int;
+            assert(u[pos] == x);
+            let (a, b) = lemma_seg_find(sizes, pos);
+            lemma_seg_of(sizes, sizes.len() as int, a, b);
+            assert(key[seg_at(sizes, x, b)] == q);
+        }
+        if adj_edge(r, x, q) {
+            let b = choose|b: int| 0 <= b < sizes[x] && #[trigger] key[seg_at(sizes, x, b)] == q;
+            let pos = seg_at(sizes, x, b);
+            lemma_seg_range(sizes, x, b);
+            lemma_seg_of(sizes, sizes.len() as int, x, b);
+            let i = lemma_perm_surjective(p, pos);
+            assert(k2[i] == q);
+            let j = i - psum(c, q);
+            assert(out.values.table@[seg_at(c, q, j)] == x);
+        }
+    }
+}
+''')
 
 fn(GR, 'converse', kind='free', status='P', props=['C15', 'C16', 'C17', 'C18'], rules={'asref': True},
    requires=['r.wf()', 'r.values.table@.len() < usize::MAX', 'r.sources.table@.len() < usize::MAX', 'r.values.target < usize::MAX'],
    ensures=[('C15.converse-shape', '''out.sources.table@.len() == r.values.target && out.values.target == r.sources.table@.len()
                 && out.values.table@.len() == r.values.table@.len()
                 && (forall|v: int| 0 <= v < r.values.target ==> out.sources.table@[v] == count(r.values.table@, v, r.values.table@.len() as int))'''),
-            ('C15.converse-wf', 'out.wf()')],
+            ('C15.converse-wf', 'out.wf()'),
+            ('C15.converse-edges', 'forall|q: int, x: int| #![trigger adj_edge(out, q, x)] #![trigger adj_edge(*r, x, q)] 0 <= q < r.values.target && 0 <= x < r.sources.table@.len() ==> (adj_edge(out, q, x) <==> adj_edge(*r, x, q))')],
    ret='out',
    proofs=[('start', 'assert(lawful_clone::<usize>()); lemma_seg_wf_sources(r.sources, r.values.table@.len());'),
            # inside the block that builds values_table: every entry of the repeated segment indices is a segment index
            ('before:unsorted_values.sort_by(&r.values.table)', '''assert forall|m: int| 0 <= m < unsorted_values@.len() implies (#[trigger] unsorted_values@[m]) < r.sources.table@.len() by {
                 let (a, b) = lemma_seg_find(r.sources.table@, m);
                 assert(unsorted_values@[seg_at(r.sources.table@, a, b)] == arange@[a]);
+            }
+            assert(unsorted_values@ =~= seg_index_seq(r.sources.table@)) by {
+                assert forall|m: int| 0 <= m < unsorted_values@.len() implies unsorted_values@[m] == seg_index_seq(r.sources.table@)[m] by {
+                    let (a, b) = lemma_seg_find(r.sources.table@, m);
+                    assert(unsorted_values@[seg_at(r.sources.table@, a, b)] == arange@[a]);
+                    lemma_seg_of(r.sources.table@, r.sources.table@.len() as int, a, b);
+                }
             }'''),
            ('before:let sources = FiniteFunction::new(sources_table', '''assert forall|v: int| 0 <= v < sources_table@.len() implies (#[trigger] sources_table@[v]) < r.values.table@.len() + 1 by {
                 lemma_count_bounds(r.values.table@, v, r.values.table@.len() as int);
             }'''),
-           ('before:IndexedCoproduct::new(sources, values).unwrap()', '''lemma_counts_total(r.values.table@, sources.table@, r.values.target as int, r.values.table@.len() as int);''')])
+           ('before:IndexedCoproduct::new(sources, values).unwrap()', '''lemma_counts_total(r.values.table@, sources.table@, r.values.target as int, r.values.table@.len() as int);
+            let key = r.values.table@; let u = seg_index_seq(r.sources.table@);
+            let p = choose|p: Seq<usize>| sorts(p, key) && (forall|i: int| 0 <= i < key.len() ==> values.table@[i] == u[p[i] as int]);
+            let o = IndexedCoproduct::<FiniteFunction> { sources: sources, values: values };
+            lemma_converse_edges(*r, o, p);''')])
+raw(r'''
+/// operation y depends on operation x: some target node of x is a source node of y
+pub open spec fn depends(t: IndexedCoproduct<FiniteFunction>, s: IndexedCoproduct<FiniteFunction>, x: int, y: int) -> bool {
+    exists|w: int| 0 <= w < t.values.target && #[trigger] adj_edge(t, x, w) && adj_edge(s, y, w)
+}
+
+/// node v is one step after node w: some hyperedge has w among its sources and v among its targets
+pub open spec fn node_step(s: IndexedCoproduct<FiniteFunction>, t: IndexedCoproduct<FiniteFunction>, w: int, v: int) -> bool {
+    exists|e: int| 0 <= e < s.sources.table@.len() && #[trigger] adj_edge(s, e, w) && adj_edge(t, e, v)
+}
+
+/// x -> w in a and w -> y in b, for some w
+pub open spec fn two_step(a: IndexedCoproduct<FiniteFunction>, b: IndexedCoproduct<FiniteFunction>, x: int, y: int) -> bool {
+    exists|w: int| 0 <= w < b.sources.table@.len() && #[trigger] adj_edge(a, x, w) && adj_edge(b, w, y)
+}
+
+pub proof fn lemma_flatmap_offsets(s: Seq<usize>, k: Seq<usize>, rs: Seq<usize>, i: int)
+    requires 0 <= i <= s.len(), rs.len() == s.len(), total(s) == k.len(),
+        forall|x: int| 0 <= x < s.len() ==> rs[x] == psum(k, psum(s, x + 1)) - psum(k, psum(s, x)),
+    ensures psum(rs, i) == psum(k, psum(s, i)), 0 <= psum(s, i) <= k.len()
+    decreases i
+{
+    lemma_psum_mono(s, 0, i); lemma_psum_mono(s, i, s.len() as int);
+    if i > 0 { lemma_flatmap_offsets(s, k, rs, i - 1); }
+}
+
+/// `flatmap` composes the two relations
+pub proof fn lemma_flatmap_edges(a: IndexedCoproduct<FiniteFunction>, b: IndexedCoproduct<FiniteFunction>, rs: Seq<usize>, rv: Seq<usize>)
+    requires a.wf(), b.wf(), a.values.target == b.sources.table@.len(),
+        rs.len() == a.sources.table@.len(),
+        forall|i: int| 0 <= i < a.sources.table@.len() ==> rs[i] ==
+            psum(kseq(b.sources.table@, a.values.table@), psum(a.sources.table@, i + 1)) - psum(kseq(b.sources.table@, a.values.table@), psum(a.sources.table@, i)),
+        rv.len() == total(kseq(b.sources.table@, a.values.table@)),
+        forall|p: int, j: int| 0 <= p < a.values.table@.len() && 0 <= j < kseq(b.sources.table@, a.values.table@)[p] ==>
+            rv[#[trigger] seg_at(kseq(b.sources.table@, a.values.table@), p, j)] == b.values.table@[psum(b.sources.table@, a.values.table@[p] as int) + j],
+    ensures forall|x: int, y: int| 0 <= x < a.sources.table@.len() ==> (#[trigger] edge_raw(rs, rv, x, y) <==> two_step(a, b, x, y))
+{
+    let s = a.sources.table@; let av = a.values.table@; let bs = b.sources.table@; let bv = b.values.table@;
+    let k = kseq(bs, av);
+    assert(total(s) == av.len());
+    assert forall|x: int, y: int| 0 <= x < s.len() implies (#[trigger] edge_raw(rs, rv, x, y) <==> two_step(a, b, x, y)) by {
+        lemma_flatmap_offsets(s, k, rs, x); lemma_flatmap_offsets(s, k, rs, x + 1);
+        let lo = psum(s, x); let hi = psum(s, x + 1);
+        assert(hi == lo + s[x]);
+        lemma_psum_mono(k, lo, hi); lemma_psum_mono(k, hi, k.len() as int); lemma_psum_mono(k, 0, lo);
+        if edge_raw(rs, rv, x, y) {
+            let j1 = choose|j1: int| 0 <= j1 < rs[x] && #[trigger] rv[seg_at(rs, x, j1)] == y;
+            let m = seg_at(rs, x, j1);
+            let (p, j) = lemma_seg_find(k, m);
+            if p < lo { lemma_psum_mono(k, p + 1, lo); }
+            if p >= hi { lemma_psum_mono(k, hi, p); }
+            assert(lo <= p < hi);
+            let w = av[p] as int;
+            assert(av[seg_at(s, x, p - lo)] == w);
+            assert(adj_edge(a, x, w));
+            assert(rv[seg_at(k, p, j)] == bv[psum(bs, av[p] as int) + j]);
+            assert(bv[seg_at(bs, w, j)] == y);
+            assert(adj_edge(b, w, y));
+        }
+        if two_step(a, b, x, y) {
+            let w = choose|w: int| 0 <= w < bs.len() && #[trigger] adj_edge(a, x, w) && adj_edge(b, w, y);
+            let i1 = choose|i1: int| 0 <= i1 < s[x] && #[trigger] av[seg_at(s, x, i1)] == w;
+            let j = choose|j: int| 0 <= j < bs[w] && #[trigger] bv[seg_at(bs, w, j)] == y;
+            let p = seg_at(s, x, i1);
+            assert(k[p] == bs[w]);
+            let m = seg_at(k, p, j);
+            assert(rv[m] == bv[psum(bs, av[p] as int) + j]);
+            lemma_psum_mono(k, lo, p); lemma_psum_mono(k, p + 1, hi);
+            assert(psum(k, p + 1) == psum(k, p) + k[p]);
+            let j1 = m - psum(rs, x);
+            assert(rv[seg_at(rs, x, j1)] == y);
+        }
+    }
+}
+''')
+
 fn(GR, 'operation_adjacency', kind='free', status='P', props=['C15', 'C16'], where_add='O: Clone, A: Clone',
    requires=['h.wf()', 'adjacency_fits(h.t, h.s)'],
-   ensures=[('C15.operation_adjacency-wf', 'adj_wf(r) && r.sources.table@.len() == h.x@.len()')],
+   ensures=[('C15.operation_adjacency-wf', 'adj_wf(r) && r.sources.table@.len() == h.x@.len()'),
+            ('C15.operation_adjacency-edges', 'forall|x: int, y: int| 0 <= x < h.x@.len() && 0 <= y < h.x@.len() ==> (#[trigger] adj_edge(r, x, y) <==> depends(h.t, h.s, x, y))')],
    proofs=[('start', '''let ls = h.s.values.table@.len() as int; let lt = h.t.values.table@.len() as int;
             assert forall|v: int| #[trigger] count(h.s.values.table@, v, ls) <= ls by { lemma_count_bounds(h.s.values.table@, v, ls); }
             assert forall|sz: Seq<usize>, v: Seq<usize>| (forall|i: int| 0 <= i < v.len() ==> (#[trigger] v[i]) < sz.len()) && (forall|i: int| 0 <= i < sz.len() ==> (#[trigger] sz[i]) <= ls)
@@ -170,20 +628,18 @@ fn(GR, 'operation_adjacency', kind='free', status='P', props=['C15', 'C16'], whe
             assert(lt * ls == ls * lt) by (nonlinear_arith);''')])
 fn(GR, 'node_adjacency', kind='free', status='P', props=['C17', 'C18'], where_add='O: Clone, A: Clone',
    requires=['h.wf()', 'adjacency_fits(h.s, h.t)', 'h.s.sources.table@.len() == h.t.sources.table@.len()'],
-   ensures=[('C17.node_adjacency-wf', 'adj_wf(r) && r.sources.table@.len() == h.w@.len()')])
+   ensures=[('C17.node_adjacency-wf', 'adj_wf(r) && r.sources.table@.len() == h.w@.len()'),
+            ('C17.node_adjacency-edges', 'forall|w: int, v: int| 0 <= w < h.w@.len() && 0 <= v < h.w@.len() ==> (#[trigger] adj_edge(r, w, v) <==> node_step(h.s, h.t, w, v))')])
 fn(GR, 'node_adjacency_from_incidence', kind='free', status='P', props=['C17', 'C18'],
    requires=['s.wf()', 't.wf()', 's.sources.table@.len() == t.sources.table@.len()', 's.values.target == t.values.target', 'adjacency_fits(*s, *t)'],
-   ensures=[('C17.node_adjacency_from_incidence-wf', 'adj_wf(r) && r.sources.table@.len() == s.values.target')],
+   ensures=[('C17.node_adjacency_from_incidence-wf', 'adj_wf(r) && r.sources.table@.len() == s.values.target'),
+            ('C17.node_adjacency_from_incidence-edges', 'forall|w: int, v: int| 0 <= w < s.values.target && 0 <= v < s.values.target ==> (#[trigger] adj_edge(r, w, v) <==> node_step(*s, *t, w, v))')],
    proofs=[('start', '''let ls = s.values.table@.len() as int; let lt = t.values.table@.len() as int;
             lemma_seg_wf_sources(t.sources, t.values.table@.len());
             assert forall|sz: Seq<usize>, v: Seq<usize>| (forall|i: int| 0 <= i < v.len() ==> (#[trigger] v[i]) < sz.len()) && (forall|i: int| 0 <= i < sz.len() ==> (#[trigger] sz[i]) <= lt)
                 implies #[trigger] total(kseq(sz, v)) <= v.len() * lt by { lemma_kseq_bound(sz, v, lt, v.len() as int); }''')])
 
 raw(r'''
-/// y is listed in segment x of the adjacency (x -> y)
-pub open spec fn adj_edge(a: IndexedCoproduct<FiniteFunction>, x: int, y: int) -> bool {
-    exists|j: int| 0 <= j < a.sources.table@[x] && #[trigger] a.values.table@[seg_at(a.sources.table@, x, j)] == y
-}
 
 /// the layering contract of `kahn` in local form (no paths needed):
 /// (1) a visited node has all predecessors visited with strictly smaller order,
@@ -196,8 +652,13 @@ pub open spec fn kahn_ok(a: IndexedCoproduct<FiniteFunction>, order: Seq<usize>,
     &&& forall|y: int| 0 <= y < n ==> (#[trigger] unvisited[y]) <= 1
     &&& forall|y: int| 0 <= y < n ==> (#[trigger] order[y]) < n
     &&& forall|x: int, y: int| 0 <= x < n && 0 <= y < n && unvisited[y] == 0 && #[trigger] adj_edge(a, x, y) ==> unvisited[x] == 0 && order[x] < order[y]
-    &&& forall|y: int| 0 <= y < n && unvisited[y] == 0 && order[y] > 0 ==> exists|x: int| 0 <= x < n && #[trigger] adj_edge(a, x, y) && unvisited[x] == 0 && order[x] + 1 == order[y]
-    &&& forall|y: int| 0 <= y < n && unvisited[y] == 1 ==> exists|x: int| 0 <= x < n && #[trigger] adj_edge(a, x, y) && unvisited[x] == 1
+    &&& forall|y: int| 0 <= y < n && unvisited[y] == 0 && order[y] > 0 ==> #[trigger] has_pred_at(a, order, unvisited, y, order[y] as int)
+    &&& forall|y: int| 0 <= y < n && unvisited[y] == 1 ==> #[trigger] has_unvisited_pred(a, unvisited, y)
+}
+
+/// y has an unvisited predecessor
+pub open spec fn has_unvisited_pred(a: IndexedCoproduct<FiniteFunction>, unv: Seq<usize>, y: int) -> bool {
+    exists|x: int| 0 <= x < a.sources.table@.len() && #[trigger] adj_edge(a, x, y) && unv[x] == 1
 }
 
 pub proof fn lemma_psum_le(s: Seq<usize>, m: int, n: int)
@@ -212,7 +673,547 @@ pub proof fn lemma_psum_le(s: Seq<usize>, m: int, n: int)
 }
 ''')
 
-fn(GR, 'kahn', kind='free', status='B', props=['C15', 'C16', 'C17'], rules={'asref': True, 'drop_into': True},
+raw(r'''
+// ---------------------------------------------------------------------------------------------
+// ghost model of the level-synchronous Kahn loop
+// ---------------------------------------------------------------------------------------------
+/// number of adjacency entries x -> y whose source x is still marked (w[x] != 0), over x < n
+pub open spec fn indeg_w(a: IndexedCoproduct<FiniteFunction>, w: Seq<usize>, y: int, n: int) -> int
+    decreases n
+{
+    if n <= 0 { 0 } else { indeg_w(a, w, y, n - 1) + (if w[n - 1] != 0 { seg_count(a, n - 1, y) } else { 0int }) }
+}
+
+pub proof fn lemma_indeg_nonneg(a: IndexedCoproduct<FiniteFunction>, w: Seq<usize>, y: int, n: int)
+    requires adj_wf(a), 0 <= n <= a.sources.table@.len()
+    ensures indeg_w(a, w, y, n) >= 0
+    decreases n
+{
+    if n > 0 { lemma_indeg_nonneg(a, w, y, n - 1); lemma_seg_count_edge(a, n - 1, y); }
+}
+
+pub proof fn lemma_indeg_all(a: IndexedCoproduct<FiniteFunction>, w: Seq<usize>, y: int, n: int)
+    requires adj_wf(a), 0 <= n <= a.sources.table@.len(), forall|x: int| 0 <= x < n ==> w[x] != 0
+    ensures indeg_w(a, w, y, n) == count(a.values.table@, y, psum(a.sources.table@, n))
+    decreases n
+{
+    if n > 0 { lemma_indeg_all(a, w, y, n - 1); }
+}
+
+pub proof fn lemma_indeg_witness(a: IndexedCoproduct<FiniteFunction>, w: Seq<usize>, y: int, n: int) -> (x: int)
+    requires adj_wf(a), 0 <= n <= a.sources.table@.len(), indeg_w(a, w, y, n) > 0
+    ensures 0 <= x < n, w[x] != 0, adj_edge(a, x, y)
+    decreases n
+{
+    lemma_seg_count_edge(a, n - 1, y);
+    if w[n - 1] != 0 && seg_count(a, n - 1, y) > 0 { n - 1 } else { lemma_indeg_witness(a, w, y, n - 1) }
+}
+
+pub proof fn lemma_indeg_term(a: IndexedCoproduct<FiniteFunction>, w: Seq<usize>, y: int, n: int, x: int)
+    requires adj_wf(a), 0 <= x < n <= a.sources.table@.len(), w[x] != 0
+    ensures indeg_w(a, w, y, n) >= seg_count(a, x, y)
+    decreases n
+{
+    lemma_seg_count_edge(a, n - 1, y);
+    if x < n - 1 { lemma_indeg_term(a, w, y, n - 1, x); } else { lemma_indeg_nonneg(a, w, y, n - 1); }
+}
+
+pub proof fn lemma_indeg_update(a: IndexedCoproduct<FiniteFunction>, w: Seq<usize>, x0: int, y: int, n: int)
+    requires adj_wf(a), 0 <= n <= a.sources.table@.len(), 0 <= x0 < w.len(), w[x0] != 0
+    ensures indeg_w(a, w.update(x0, 0usize), y, n) == indeg_w(a, w, y, n) - (if x0 < n { seg_count(a, x0, y) } else { 0int })
+    decreases n
+{
+    if n > 0 { lemma_indeg_update(a, w, x0, y, n - 1); }
+}
+
+/// w with the cells f[0..m] set to zero
+pub open spec fn zeroed(w: Seq<usize>, f: Seq<usize>, m: int) -> Seq<usize>
+    decreases m
+{
+    if m <= 0 { w } else { zeroed(w, f, m - 1).update(f[m - 1] as int, 0usize) }
+}
+
+pub proof fn lemma_zeroed_at(w: Seq<usize>, f: Seq<usize>, m: int)
+    requires 0 <= m <= f.len(), in_bounds(f, w.len() as int)
+    ensures zeroed(w, f, m).len() == w.len(),
+        forall|j: int| 0 <= j < w.len() ==> #[trigger] zeroed(w, f, m)[j] == (if last_write(f, j, m) >= 0 { 0usize } else { w[j] })
+    decreases m
+{
+    if m > 0 { lemma_zeroed_at(w, f, m - 1); }
+}
+
+pub proof fn lemma_fresh_cell(w: Seq<usize>, f: Seq<usize>, m: int)
+    requires 0 < m <= f.len(), in_bounds(f, w.len() as int), injective(f)
+    ensures zeroed(w, f, m - 1)[f[m - 1] as int] == w[f[m - 1] as int], zeroed(w, f, m - 1).len() == w.len()
+{
+    lemma_zeroed_at(w, f, m - 1);
+    lemma_last_write(f, f[m - 1] as int, m - 1);
+}
+
+pub proof fn lemma_indeg_zeroed(a: IndexedCoproduct<FiniteFunction>, w: Seq<usize>, f: Seq<usize>, y: int, m: int)
+    requires adj_wf(a), w.len() == a.sources.table@.len(), in_bounds(f, w.len() as int), injective(f),
+        forall|k: int| 0 <= k < f.len() ==> w[#[trigger] f[k] as int] != 0, 0 <= m <= f.len(),
+    ensures indeg_w(a, zeroed(w, f, m), y, w.len() as int) == indeg_w(a, w, y, w.len() as int) - rel(a, f, y, m)
+    decreases m
+{
+    if m > 0 {
+        lemma_indeg_zeroed(a, w, f, y, m - 1);
+        lemma_fresh_cell(w, f, m);
+        assert(w[f[m - 1] as int] != 0);
+        lemma_indeg_update(a, zeroed(w, f, m - 1), f[m - 1] as int, y, w.len() as int);
+    }
+}
+
+pub proof fn lemma_total_zeroed(w: Seq<usize>, f: Seq<usize>, m: int)
+    requires in_bounds(f, w.len() as int), injective(f), forall|k: int| 0 <= k < f.len() ==> w[#[trigger] f[k] as int] == 1, 0 <= m <= f.len(),
+    ensures total(zeroed(w, f, m)) == total(w) - m, total(zeroed(w, f, m)) >= 0
+    decreases m
+{
+    if m > 0 {
+        lemma_total_zeroed(w, f, m - 1);
+        lemma_fresh_cell(w, f, m);
+        assert(w[f[m - 1] as int] == 1);
+        lemma_psum_update_zero(zeroed(w, f, m - 1), f[m - 1] as int, w.len() as int);
+    }
+    lemma_zeroed_at(w, f, m);
+    lemma_psum_mono(zeroed(w, f, m), 0, w.len() as int);
+}
+
+pub proof fn lemma_sub_total_miss(ixs: Seq<usize>, rhs: Seq<usize>, j: int, n: int)
+    requires 0 <= n <= ixs.len(), forall|k: int| 0 <= k < n ==> ixs[k] != j
+    ensures sub_total(ixs, rhs, j, n) == 0
+    decreases n
+{
+    if n > 0 { lemma_sub_total_miss(ixs, rhs, j, n - 1); }
+}
+
+pub proof fn lemma_sub_total_hit(ixs: Seq<usize>, rhs: Seq<usize>, j: int, n: int, k: int)
+    requires 0 <= k < n <= ixs.len(), injective(ixs), ixs[k] == j
+    ensures sub_total(ixs, rhs, j, n) == rhs[k]
+    decreases n
+{
+    if k == n - 1 { lemma_sub_total_miss(ixs, rhs, j, n - 1); } else { lemma_sub_total_hit(ixs, rhs, j, n - 1, k); }
+}
+
+pub proof fn lemma_zeros_props(s: Seq<usize>, n: int)
+    requires 0 <= n <= s.len(), n <= usize::MAX
+    ensures zeros_upto(s, n).len() <= n,
+        forall|t: int| 0 <= t < zeros_upto(s, n).len() ==> (#[trigger] zeros_upto(s, n)[t]) < n && s[zeros_upto(s, n)[t] as int] == 0,
+        forall|t1: int, t2: int| 0 <= t1 < t2 < zeros_upto(s, n).len() ==> zeros_upto(s, n)[t1] < zeros_upto(s, n)[t2],
+        forall|i: int| 0 <= i < n && s[i] == 0 ==> hit(zeros_upto(s, n), i, zeros_upto(s, n).len() as int),
+    decreases n
+{
+    if n > 0 {
+        lemma_zeros_props(s, n - 1);
+        let z0 = zeros_upto(s, n - 1); let z = zeros_upto(s, n);
+        if s[n - 1] == 0 {
+            assert(z == z0.push((n - 1) as usize));
+            assert forall|i: int| 0 <= i < n && s[i] == 0 implies hit(z, i, z.len() as int) by {
+                if i == n - 1 { assert(z[z0.len() as int] == i); }
+                else {
+                    let t = choose|t: int| 0 <= t < z0.len() && #[trigger] z0[t] == i;
+                    assert(z[t] == i);
+                }
+            }
+        } else {
+            assert(z == z0);
+        }
+    }
+}
+
+/// y has a visited predecessor in layer d - 1
+pub open spec fn has_pred_at(a: IndexedCoproduct<FiniteFunction>, order: Seq<usize>, unv: Seq<usize>, y: int, d: int) -> bool {
+    exists|x: int| 0 <= x < a.sources.table@.len() && #[trigger] adj_edge(a, x, y) && unv[x] == 0 && order[x] + 1 == d
+}
+
+/// the loop invariant of `kahn` (fr = current frontier, depth = its layer number)
+pub open spec fn kahn_inv(a: IndexedCoproduct<FiniteFunction>, order: Seq<usize>, unv: Seq<usize>, ind: Seq<usize>, fr: Seq<usize>, depth: int) -> bool {
+    let n = a.sources.table@.len() as int;
+    &&& order.len() == n && unv.len() == n && ind.len() == n
+    &&& forall|y: int| 0 <= y < n ==> (#[trigger] unv[y]) <= 1
+    &&& forall|y: int| 0 <= y < n ==> (#[trigger] order[y]) < n
+    &&& forall|y: int| 0 <= y < n ==> (#[trigger] ind[y]) == indeg_w(a, unv, y, n)
+    &&& in_bounds(fr, n) && injective(fr)
+    &&& forall|k: int| 0 <= k < fr.len() ==> unv[#[trigger] fr[k] as int] == 1 && ind[fr[k] as int] == 0
+    &&& forall|y: int| 0 <= y < n && (#[trigger] unv[y]) == 1 && ind[y] == 0 ==> hit(fr, y, fr.len() as int)
+    &&& 0 <= depth && depth + total(unv) <= n
+    &&& forall|y: int| 0 <= y < n && (#[trigger] unv[y]) == 0 ==> order[y] < depth
+    &&& forall|x: int, y: int| 0 <= x < n && 0 <= y < n && unv[y] == 0 && #[trigger] adj_edge(a, x, y) ==> unv[x] == 0 && order[x] < order[y]
+    &&& forall|y: int| 0 <= y < n && unv[y] == 0 && order[y] > 0 ==> #[trigger] has_pred_at(a, order, unv, y, order[y] as int)
+    &&& depth > 0 ==> forall|k: int| 0 <= k < fr.len() ==> has_pred_at(a, order, unv, (#[trigger] fr[k]) as int, depth)
+}
+
+pub proof fn lemma_kahn_init(a: IndexedCoproduct<FiniteFunction>, order: Seq<usize>, unv: Seq<usize>, ind: Seq<usize>, fr: Seq<usize>)
+    requires adj_wf(a), a.sources.table@.len() <= usize::MAX,
+        order.len() == a.sources.table@.len(), unv.len() == a.sources.table@.len(), ind.len() == a.sources.table@.len(),
+        forall|y: int| 0 <= y < order.len() ==> order[y] == 0,
+        forall|y: int| 0 <= y < unv.len() ==> unv[y] == 1,
+        forall|y: int| 0 <= y < ind.len() ==> ind[y] == count(a.values.table@, y, a.values.table@.len() as int),
+        fr == zeros_upto(ind, ind.len() as int),
+    ensures kahn_inv(a, order, unv, ind, fr, 0)
+{
+    let n = a.sources.table@.len() as int;
+    lemma_zeros_props(ind, n);
+    assert forall|y: int| 0 <= y < n implies (#[trigger] ind[y]) == indeg_w(a, unv, y, n) by { lemma_indeg_all(a, unv, y, n); }
+    lemma_psum_const(unv, 1usize, n);
+    assert(injective(fr));
+    assert(in_bounds(fr, n));
+}
+
+/// the frontier is small: it consists of distinct unvisited nodes
+pub proof fn lemma_kahn_frontier_small(a: IndexedCoproduct<FiniteFunction>, order: Seq<usize>, unv: Seq<usize>, ind: Seq<usize>, fr: Seq<usize>, depth: int)
+    requires adj_wf(a), kahn_inv(a, order, unv, ind, fr, depth)
+    ensures fr.len() <= total(unv), depth + fr.len() <= a.sources.table@.len()
+{
+    lemma_total_zeroed(unv, fr, fr.len() as int);
+}
+
+/// what `scatter_sub_assign(reachable_ix, reachable_count)` subtracts from cell j
+pub proof fn lemma_kahn_sub_at(a: IndexedCoproduct<FiniteFunction>, unv: Seq<usize>, ind: Seq<usize>, fr: Seq<usize>, rix: Seq<usize>, rcnt: Seq<usize>, j: int)
+    requires adj_wf(a), unv.len() == a.sources.table@.len(), ind.len() == unv.len(), 0 <= j < unv.len(),
+        in_bounds(fr, unv.len() as int), injective(fr), forall|k: int| 0 <= k < fr.len() ==> unv[#[trigger] fr[k] as int] == 1,
+        ind[j] == indeg_w(a, unv, j, unv.len() as int),
+        rix.len() == rcnt.len(), injective(rix),
+        forall|k: int| 0 <= k < rix.len() ==> (#[trigger] rcnt[k]) == rel(a, fr, rix[k] as int, fr.len() as int),
+        rel(a, fr, j, fr.len() as int) > 0 ==> hit(rix, j, rix.len() as int),
+    ensures sub_total(rix, rcnt, j, rix.len() as int) == rel(a, fr, j, fr.len() as int), ind[j] >= rel(a, fr, j, fr.len() as int),
+{
+    let n = unv.len() as int; let m = fr.len() as int;
+    lemma_indeg_zeroed(a, unv, fr, j, m);
+    lemma_zeroed_at(unv, fr, m);
+    lemma_indeg_nonneg(a, zeroed(unv, fr, m), j, n);
+    lemma_rel_nonneg(a, fr, j, m);
+    if hit(rix, j, rix.len() as int) {
+        let k = choose|k: int| 0 <= k < rix.len() && #[trigger] rix[k] == j;
+        lemma_sub_total_hit(rix, rcnt, j, rix.len() as int, k);
+        assert(rcnt[k] == rel(a, fr, rix[k] as int, m));
+    } else {
+        assert forall|k: int| 0 <= k < rix.len() implies rix[k] != j by {
+            if rix[k] == j { assert(hit(rix, j, rix.len() as int)); }
+        }
+        lemma_sub_total_miss(rix, rcnt, j, rix.len() as int);
+    }
+}
+
+pub proof fn lemma_kahn_sub(a: IndexedCoproduct<FiniteFunction>, unv: Seq<usize>, ind: Seq<usize>, fr: Seq<usize>, rix: Seq<usize>, rcnt: Seq<usize>)
+    requires adj_wf(a), unv.len() == a.sources.table@.len(), ind.len() == unv.len(),
+        in_bounds(fr, unv.len() as int), injective(fr), forall|k: int| 0 <= k < fr.len() ==> unv[#[trigger] fr[k] as int] == 1,
+        forall|y: int| 0 <= y < unv.len() ==> (#[trigger] ind[y]) == indeg_w(a, unv, y, unv.len() as int),
+        rix.len() == rcnt.len(), injective(rix),
+        forall|k: int| 0 <= k < rix.len() ==> (#[trigger] rcnt[k]) == rel(a, fr, rix[k] as int, fr.len() as int),
+        forall|y: int| 0 <= y < unv.len() && #[trigger] rel(a, fr, y, fr.len() as int) > 0 ==> hit(rix, y, rix.len() as int),
+    ensures forall|j: int| 0 <= j < unv.len() ==> (#[trigger] sub_total(rix, rcnt, j, rix.len() as int)) == rel(a, fr, j, fr.len() as int),
+        forall|j: int| 0 <= j < unv.len() ==> (#[trigger] ind[j]) >= rel(a, fr, j, fr.len() as int),
+{
+    assert forall|j: int| 0 <= j < unv.len() implies (#[trigger] sub_total(rix, rcnt, j, rix.len() as int)) == rel(a, fr, j, fr.len() as int) by {
+        assert(ind[j] == indeg_w(a, unv, j, unv.len() as int));
+        lemma_kahn_sub_at(a, unv, ind, fr, rix, rcnt, j);
+    }
+    assert forall|j: int| 0 <= j < unv.len() implies (#[trigger] ind[j]) >= rel(a, fr, j, fr.len() as int) by {
+        lemma_kahn_sub_at(a, unv, ind, fr, rix, rcnt, j);
+    }
+}
+''')
+
+raw(r'''
+pub open spec fn selected(pred: Seq<usize>, vals: Seq<usize>, v: usize) -> bool {
+    exists|i: int| 0 <= i < vals.len() && (#[trigger] pred[i]) == 1 && vals[i] == v
+}
+
+/// `filter` with a 0/1 predicate selects the marked values, in order
+pub proof fn lemma_select(pred: Seq<usize>, vals: Seq<usize>, out: Seq<usize>)
+    requires pred.len() == vals.len(), forall|i: int| 0 <= i < pred.len() ==> (#[trigger] pred[i]) <= 1,
+        out.len() == total(pred),
+        forall|i: int, j: int| 0 <= i < pred.len() && 0 <= j < pred[i] ==> out[#[trigger] seg_at(pred, i, j)] == vals[i],
+    ensures
+        forall|p: int| 0 <= p < out.len() ==> selected(pred, vals, #[trigger] out[p]),
+        forall|i: int| 0 <= i < pred.len() && (#[trigger] pred[i]) == 1 ==> hit(out, vals[i] as int, out.len() as int),
+        injective(vals) ==> injective(out),
+{
+    assert forall|p: int| 0 <= p < out.len() implies selected(pred, vals, #[trigger] out[p]) by {
+        let (i, j) = lemma_seg_find(pred, p);
+        assert(out[seg_at(pred, i, j)] == vals[i]);
+        assert(pred[i] == 1);
+    }
+    assert forall|i: int| 0 <= i < pred.len() && (#[trigger] pred[i]) == 1 implies hit(out, vals[i] as int, out.len() as int) by {
+        lemma_seg_range(pred, i, 0);
+        assert(out[seg_at(pred, i, 0)] == vals[i]);
+    }
+    if injective(vals) {
+        assert forall|p1: int, p2: int| 0 <= p1 < out.len() && 0 <= p2 < out.len() && p1 != p2 implies out[p1] != out[p2] by {
+            let (i1, j1) = lemma_seg_find(pred, p1);
+            let (i2, j2) = lemma_seg_find(pred, p2);
+            assert(out[seg_at(pred, i1, j1)] == vals[i1]);
+            assert(out[seg_at(pred, i2, j2)] == vals[i2]);
+            assert(pred[i1] <= 1 && pred[i2] <= 1);
+            assert(i1 != i2);
+        }
+    }
+}
+
+/// cell j was written by the scatter  <==>  j is listed in the frontier
+pub proof fn lemma_written_iff_hit(f: Seq<usize>, j: int)
+    ensures last_write(f, j, f.len() as int) >= 0 <==> hit(f, j, f.len() as int)
+{
+    lemma_last_write(f, j, f.len() as int);
+    if hit(f, j, f.len() as int) {
+        let k = choose|k: int| 0 <= k < f.len() && #[trigger] f[k] == j;
+        assert(last_write(f, j, f.len() as int) >= k);
+    }
+}
+
+/// marking the frontier and subtracting its out-edges keeps the counting part of the invariant
+pub proof fn lemma_kahn_step_counts(a: IndexedCoproduct<FiniteFunction>, unv: Seq<usize>, ind: Seq<usize>, fr: Seq<usize>,
+                                    unv2: Seq<usize>, rix: Seq<usize>, rcnt: Seq<usize>, ind2: Seq<usize>)
+    requires adj_wf(a), unv.len() == a.sources.table@.len(), ind.len() == unv.len(),
+        forall|y: int| 0 <= y < unv.len() ==> (#[trigger] unv[y]) <= 1,
+        in_bounds(fr, unv.len() as int), injective(fr), forall|k: int| 0 <= k < fr.len() ==> unv[#[trigger] fr[k] as int] == 1,
+        forall|y: int| 0 <= y < unv.len() ==> (#[trigger] ind[y]) == indeg_w(a, unv, y, unv.len() as int),
+        unv2.len() == unv.len(),
+        forall|j: int| 0 <= j < unv.len() ==> #[trigger] unv2[j] == (if last_write(fr, j, fr.len() as int) >= 0 { 0usize } else { unv[j] }),
+        rix.len() == rcnt.len(), injective(rix),
+        forall|k: int| 0 <= k < rix.len() ==> (#[trigger] rcnt[k]) == rel(a, fr, rix[k] as int, fr.len() as int),
+        forall|y: int| 0 <= y < unv.len() && #[trigger] rel(a, fr, y, fr.len() as int) > 0 ==> hit(rix, y, rix.len() as int),
+        ind2.len() == ind.len(),
+        forall|j: int| 0 <= j < ind.len() ==> #[trigger] ind2[j] == ind[j] - sub_total(rix, rcnt, j, rix.len() as int),
+    ensures
+        total(unv2) == total(unv) - fr.len(),
+        forall|y: int| 0 <= y < unv.len() ==> (#[trigger] unv2[y]) <= 1,
+        forall|y: int| 0 <= y < unv.len() ==> (#[trigger] ind2[y]) == indeg_w(a, unv2, y, unv.len() as int),
+        forall|y: int| 0 <= y < unv.len() ==> (#[trigger] ind2[y]) == ind[y] - rel(a, fr, y, fr.len() as int),
+{
+    let n = unv.len() as int; let m = fr.len() as int;
+    lemma_zeroed_at(unv, fr, m);
+    assert(unv2 =~= zeroed(unv, fr, m));
+    lemma_total_zeroed(unv, fr, m);
+    lemma_kahn_sub(a, unv, ind, fr, rix, rcnt);
+    assert forall|y: int| 0 <= y < n implies (#[trigger] ind2[y]) == indeg_w(a, unv2, y, n) && ind2[y] == ind[y] - rel(a, fr, y, m) by {
+        lemma_indeg_zeroed(a, unv, fr, y, m);
+        assert(sub_total(rix, rcnt, y, rix.len() as int) == rel(a, fr, y, m));
+    }
+}
+
+/// the next frontier: exactly the unvisited nodes whose indegree just dropped to zero
+pub proof fn lemma_kahn_step_frontier(n: int, unv2: Seq<usize>, ind2: Seq<usize>, rix: Seq<usize>, f1: Seq<usize>, fr2: Seq<usize>)
+    requires unv2.len() == n, ind2.len() == n, in_bounds(rix, n), injective(rix), rix.len() <= usize::MAX,
+        forall|y: int| 0 <= y < n ==> (#[trigger] unv2[y]) <= 1,
+        f1.len() == zeros_upto(kseq(ind2, rix), rix.len() as int).len(),
+        forall|t: int| 0 <= t < f1.len() ==> #[trigger] f1[t] == rix[zeros_upto(kseq(ind2, rix), rix.len() as int)[t] as int],
+        fr2.len() == total(kseq(unv2, f1)),
+        forall|i: int, j: int| 0 <= i < f1.len() && 0 <= j < kseq(unv2, f1)[i] ==> fr2[#[trigger] seg_at(kseq(unv2, f1), i, j)] == f1[i],
+    ensures in_bounds(fr2, n), injective(fr2),
+        forall|p: int| 0 <= p < fr2.len() ==> unv2[#[trigger] fr2[p] as int] == 1 && ind2[fr2[p] as int] == 0 && hit(rix, fr2[p] as int, rix.len() as int),
+        forall|k: int| 0 <= k < rix.len() && unv2[#[trigger] rix[k] as int] == 1 && ind2[rix[k] as int] == 0 ==> hit(fr2, rix[k] as int, fr2.len() as int),
+{
+    let g = kseq(ind2, rix); let z = zeros_upto(g, rix.len() as int); let pred = kseq(unv2, f1);
+    lemma_zeros_props(g, rix.len() as int);
+    assert forall|t: int| 0 <= t < f1.len() implies (#[trigger] f1[t]) < n && ind2[f1[t] as int] == 0 by {
+        assert(z[t] < rix.len() && g[z[t] as int] == 0);
+        assert(rix[z[t] as int] < n);
+    }
+    assert(injective(f1)) by {
+        assert forall|t1: int, t2: int| 0 <= t1 < f1.len() && 0 <= t2 < f1.len() && t1 != t2 implies f1[t1] != f1[t2] by {
+            assert(z[t1] < rix.len() && z[t2] < rix.len());
+            if t1 < t2 { assert(z[t1] < z[t2]); } else { assert(z[t2] < z[t1]); }
+        }
+    }
+    assert forall|i: int| 0 <= i < pred.len() implies (#[trigger] pred[i]) <= 1 by { assert(f1[i] < n); }
+    lemma_select(pred, f1, fr2);
+    assert forall|p: int| 0 <= p < fr2.len() implies (#[trigger] fr2[p]) < n && unv2[fr2[p] as int] == 1 && ind2[fr2[p] as int] == 0 && hit(rix, fr2[p] as int, rix.len() as int) by {
+        assert(selected(pred, f1, fr2[p]));
+        let i = choose|i: int| 0 <= i < f1.len() && (#[trigger] pred[i]) == 1 && f1[i] == fr2[p];
+        assert(f1[i] < n);
+        assert(z[i] < rix.len());
+        assert(rix[z[i] as int] == fr2[p]);
+    }
+    assert forall|k: int| 0 <= k < rix.len() && unv2[#[trigger] rix[k] as int] == 1 && ind2[rix[k] as int] == 0 implies hit(fr2, rix[k] as int, fr2.len() as int) by {
+        assert(g[k] == 0);
+        let t = choose|t: int| 0 <= t < z.len() && #[trigger] z[t] == k;
+        assert(f1[t] == rix[k]);
+        assert(pred[t] == 1);
+    }
+}
+
+/// the cells written by the two scatters: written(fr, j) <==> j is in the frontier
+pub open spec fn written(fr: Seq<usize>, j: int) -> bool { last_write(fr, j, fr.len() as int) >= 0 }
+
+/// the order/visited part of one round: orders of old nodes are kept, the old frontier gets `depth`
+pub proof fn lemma_kahn_step_order(a: IndexedCoproduct<FiniteFunction>, order: Seq<usize>, unv: Seq<usize>, ind: Seq<usize>, fr: Seq<usize>, depth: int,
+                                   order2: Seq<usize>, unv2: Seq<usize>)
+    requires adj_wf(a), kahn_inv(a, order, unv, ind, fr, depth), depth < a.sources.table@.len(),
+        unv2.len() == unv.len(),
+        forall|j: int| 0 <= j < unv.len() ==> #[trigger] unv2[j] == (if written(fr, j) { 0usize } else { unv[j] }),
+        order2.len() == order.len(),
+        forall|j: int| 0 <= j < order.len() ==> (#[trigger] order2[j]) as int == (if written(fr, j) { depth } else { order[j] as int }),
+    ensures
+        forall|y: int| 0 <= y < unv.len() ==> (#[trigger] order2[y]) < unv.len(),
+        forall|y: int| 0 <= y < unv.len() && (#[trigger] unv2[y]) == 0 ==> order2[y] < depth + 1,
+        forall|x: int, y: int| 0 <= x < unv.len() && 0 <= y < unv.len() && unv2[y] == 0 && #[trigger] adj_edge(a, x, y) ==> unv2[x] == 0 && order2[x] < order2[y],
+        forall|y: int| 0 <= y < unv.len() && unv2[y] == 0 && order2[y] > 0 ==> #[trigger] has_pred_at(a, order2, unv2, y, order2[y] as int),
+        forall|k: int| 0 <= k < fr.len() ==> unv2[(#[trigger] fr[k]) as int] == 0 && order2[fr[k] as int] == depth,
+{
+    let n = a.sources.table@.len() as int; let m = fr.len() as int;
+    // a cell is written iff it is in the old frontier; old-frontier cells were unvisited with indegree 0
+    assert forall|j: int| 0 <= j < n && #[trigger] written(fr, j) implies unv[j] == 1 && ind[j] == 0 by {
+        lemma_last_write(fr, j, m);
+        assert(unv[fr[last_write(fr, j, m)] as int] == 1);
+    }
+    assert forall|k: int| 0 <= k < fr.len() implies unv2[(#[trigger] fr[k]) as int] == 0 && order2[fr[k] as int] == depth by {
+        lemma_written_iff_hit(fr, fr[k] as int);
+        assert(hit(fr, fr[k] as int, m));
+    }
+    assert forall|y: int| 0 <= y < n implies (#[trigger] order2[y]) < n by { assert(order[y] < n); }
+    assert forall|y: int| 0 <= y < n && (#[trigger] unv2[y]) == 0 implies order2[y] < depth + 1 by {
+        if !written(fr, y) { assert(unv[y] == 0); }
+    }
+    assert forall|x: int, y: int| 0 <= x < n && 0 <= y < n && unv2[y] == 0 && #[trigger] adj_edge(a, x, y) implies unv2[x] == 0 && order2[x] < order2[y] by {
+        if written(fr, y) {
+            assert(ind[y] == indeg_w(a, unv, y, n));
+            lemma_seg_count_edge(a, x, y);
+            if unv[x] != 0 { lemma_indeg_term(a, unv, y, n, x); }
+            assert(unv[x] == 0);
+            assert(!written(fr, x));
+            assert(order[x] < depth);
+        } else {
+            assert(unv[y] == 0);
+            assert(unv[x] == 0 && order[x] < order[y]);
+            assert(!written(fr, x));
+        }
+    }
+    assert forall|y: int| 0 <= y < n && unv2[y] == 0 && order2[y] > 0 implies #[trigger] has_pred_at(a, order2, unv2, y, order2[y] as int) by {
+        if written(fr, y) {
+            lemma_written_iff_hit(fr, y);
+            let k = choose|k: int| 0 <= k < m && #[trigger] fr[k] == y;
+            assert(depth > 0);
+            assert(has_pred_at(a, order, unv, fr[k] as int, depth));
+            let x = choose|x: int| 0 <= x < n && #[trigger] adj_edge(a, x, fr[k] as int) && unv[x] == 0 && order[x] + 1 == depth;
+            assert(!written(fr, x));
+            assert(adj_edge(a, x, y) && unv2[x] == 0 && order2[x] + 1 == order2[y]);
+        } else {
+            assert(unv[y] == 0 && order[y] > 0);
+            assert(has_pred_at(a, order, unv, y, order[y] as int));
+            let x = choose|x: int| 0 <= x < n && #[trigger] adj_edge(a, x, y) && unv[x] == 0 && order[x] + 1 == order[y];
+            assert(!written(fr, x));
+            assert(adj_edge(a, x, y) && unv2[x] == 0 && order2[x] + 1 == order2[y]);
+        }
+    }
+}
+
+pub open spec fn edge_from(a: IndexedCoproduct<FiniteFunction>, fr: Seq<usize>, y: int) -> bool {
+    exists|k: int| 0 <= k < fr.len() && adj_edge(a, (#[trigger] fr[k]) as int, y)
+}
+
+/// the new frontier is complete, and each of its nodes has a predecessor in the old frontier
+pub proof fn lemma_kahn_step_next(a: IndexedCoproduct<FiniteFunction>, unv: Seq<usize>, ind: Seq<usize>, fr: Seq<usize>,
+                                  unv2: Seq<usize>, ind2: Seq<usize>, rix: Seq<usize>, rcnt: Seq<usize>, fr2: Seq<usize>)
+    requires adj_wf(a), unv.len() == a.sources.table@.len(), ind.len() == unv.len(), unv2.len() == unv.len(), ind2.len() == unv.len(),
+        in_bounds(fr, unv.len() as int),
+        forall|y: int| 0 <= y < unv.len() && (#[trigger] unv[y]) == 1 && ind[y] == 0 ==> hit(fr, y, fr.len() as int),
+        forall|j: int| 0 <= j < unv.len() ==> #[trigger] unv2[j] == (if written(fr, j) { 0usize } else { unv[j] }),
+        forall|y: int| 0 <= y < unv.len() ==> (#[trigger] ind2[y]) == ind[y] - rel(a, fr, y, fr.len() as int),
+        rix.len() == rcnt.len(),
+        forall|k: int| 0 <= k < rix.len() ==> (#[trigger] rcnt[k]) == rel(a, fr, rix[k] as int, fr.len() as int) && rcnt[k] > 0,
+        forall|y: int| 0 <= y < unv.len() && #[trigger] rel(a, fr, y, fr.len() as int) > 0 ==> hit(rix, y, rix.len() as int),
+        forall|p: int| 0 <= p < fr2.len() ==> hit(rix, (#[trigger] fr2[p]) as int, rix.len() as int),
+        forall|k: int| 0 <= k < rix.len() && unv2[#[trigger] rix[k] as int] == 1 && ind2[rix[k] as int] == 0 ==> hit(fr2, rix[k] as int, fr2.len() as int),
+    ensures
+        forall|y: int| 0 <= y < unv.len() && (#[trigger] unv2[y]) == 1 && ind2[y] == 0 ==> hit(fr2, y, fr2.len() as int),
+        forall|p: int| 0 <= p < fr2.len() ==> edge_from(a, fr, (#[trigger] fr2[p]) as int),
+{
+    let n = unv.len() as int; let m = fr.len() as int;
+    assert forall|y: int| 0 <= y < n && (#[trigger] unv2[y]) == 1 && ind2[y] == 0 implies hit(fr2, y, fr2.len() as int) by {
+        lemma_written_iff_hit(fr, y);
+        assert(!written(fr, y));
+        assert(unv[y] == 1);
+        lemma_rel_nonneg(a, fr, y, m);
+        assert(ind2[y] == ind[y] - rel(a, fr, y, m));
+        if ind[y] == 0 { assert(hit(fr, y, m)); }
+        assert(rel(a, fr, y, m) > 0);
+        let k = choose|k: int| 0 <= k < rix.len() && #[trigger] rix[k] == y;
+        assert(unv2[rix[k] as int] == 1 && ind2[rix[k] as int] == 0);
+    }
+    assert forall|p: int| 0 <= p < fr2.len() implies edge_from(a, fr, (#[trigger] fr2[p]) as int) by {
+        let y = fr2[p] as int;
+        assert(hit(rix, y, rix.len() as int));
+        let k1 = choose|k: int| 0 <= k < rix.len() && #[trigger] rix[k] == y;
+        assert(rcnt[k1] > 0);
+        let k = lemma_rel_witness(a, fr, y, m);
+        assert(adj_edge(a, fr[k] as int, fr2[p] as int));
+    }
+}
+
+/// one round of the loop re-establishes the invariant one layer deeper
+pub proof fn lemma_kahn_step(a: IndexedCoproduct<FiniteFunction>, order: Seq<usize>, unv: Seq<usize>, ind: Seq<usize>, fr: Seq<usize>, depth: int,
+                             order2: Seq<usize>, unv2: Seq<usize>, rix: Seq<usize>, rcnt: Seq<usize>, ind2: Seq<usize>, f1: Seq<usize>, fr2: Seq<usize>)
+    requires adj_wf(a), kahn_inv(a, order, unv, ind, fr, depth), fr.len() > 0,
+        unv2.len() == unv.len(),
+        forall|j: int| 0 <= j < unv.len() ==> #[trigger] unv2[j] == (if last_write(fr, j, fr.len() as int) >= 0 { 0usize } else { unv[j] }),
+        order2.len() == order.len(),
+        forall|j: int| 0 <= j < order.len() ==> (#[trigger] order2[j]) as int == (if last_write(fr, j, fr.len() as int) >= 0 { depth } else { order[j] as int }),
+        rix.len() == rcnt.len(), injective(rix), in_bounds(rix, unv.len() as int), rix.len() <= usize::MAX,
+        forall|k: int| 0 <= k < rix.len() ==> (#[trigger] rcnt[k]) == rel(a, fr, rix[k] as int, fr.len() as int) && rcnt[k] > 0,
+        forall|y: int| 0 <= y < unv.len() && #[trigger] rel(a, fr, y, fr.len() as int) > 0 ==> hit(rix, y, rix.len() as int),
+        ind2.len() == ind.len(),
+        forall|j: int| 0 <= j < ind.len() ==> #[trigger] ind2[j] == ind[j] - sub_total(rix, rcnt, j, rix.len() as int),
+        f1.len() == zeros_upto(kseq(ind2, rix), rix.len() as int).len(),
+        forall|t: int| 0 <= t < f1.len() ==> #[trigger] f1[t] == rix[zeros_upto(kseq(ind2, rix), rix.len() as int)[t] as int],
+        fr2.len() == total(kseq(unv2, f1)),
+        forall|i: int, j: int| 0 <= i < f1.len() && 0 <= j < kseq(unv2, f1)[i] ==> fr2[#[trigger] seg_at(kseq(unv2, f1), i, j)] == f1[i],
+    ensures kahn_inv(a, order2, unv2, ind2, fr2, depth + 1)
+{
+    let n = a.sources.table@.len() as int; let m = fr.len() as int;
+    lemma_kahn_frontier_small(a, order, unv, ind, fr, depth);
+    lemma_kahn_step_counts(a, unv, ind, fr, unv2, rix, rcnt, ind2);
+    lemma_kahn_step_frontier(n, unv2, ind2, rix, f1, fr2);
+    lemma_kahn_step_order(a, order, unv, ind, fr, depth, order2, unv2);
+    lemma_kahn_step_next(a, unv, ind, fr, unv2, ind2, rix, rcnt, fr2);
+    assert forall|p: int| 0 <= p < fr2.len() implies has_pred_at(a, order2, unv2, (#[trigger] fr2[p]) as int, depth + 1) by {
+        assert(edge_from(a, fr, fr2[p] as int));
+        let k = choose|k: int| 0 <= k < fr.len() && adj_edge(a, (#[trigger] fr[k]) as int, fr2[p] as int);
+        assert(unv2[fr[k] as int] == 0 && order2[fr[k] as int] == depth);
+    }
+}
+
+pub proof fn lemma_kahn_exit(a: IndexedCoproduct<FiniteFunction>, order: Seq<usize>, unv: Seq<usize>, ind: Seq<usize>, fr: Seq<usize>, depth: int)
+    requires adj_wf(a), kahn_inv(a, order, unv, ind, fr, depth), fr.len() == 0
+    ensures kahn_ok(a, order, unv)
+{
+    let n = a.sources.table@.len() as int;
+    assert forall|y: int| 0 <= y < n && unv[y] == 1 implies #[trigger] has_unvisited_pred(a, unv, y) by {
+        assert(ind[y] == indeg_w(a, unv, y, n));
+        if ind[y] == 0 { assert(hit(fr, y, fr.len() as int)); }
+        let x = lemma_indeg_witness(a, unv, y, n);
+        assert(unv[x] <= 1);
+    }
+}
+''')
+
+fn(GR, 'kahn', kind='free', status='P', props=['C15', 'C16', 'C17'], rules={'asref': True, 'drop_into': True},
    requires=['adj_wf(*adjacency)', 'adjacency.values.table@.len() < usize::MAX', 'adjacency.sources.table@.len() < usize::MAX'],
    ensures=[('C15.kahn', 'kahn_ok(*adjacency, r.0@, r.1@)')],
-   mirror='c15::kahn', note='level-synchronous Kahn loop: counting invariant not proved; contract checked by bounded modules C15/C16/C17')
+   loops={1: {'invariant': [
+       'adj_wf(*adjacency)', 'adjacency.values.table@.len() < usize::MAX', 'adjacency.sources.table@.len() < usize::MAX',
+       'kahn_inv(*adjacency, order@, unvisited@, indegree.table@, frontier@, depth as int)'],
+       'decreases': 'adjacency.sources.table@.len() + 1 - depth'}},
+   proofs=[('start', 'assert(lawful_clone::<usize>());'),
+           ('before:while !frontier.is_empty()', 'lemma_kahn_init(*adjacency, order@, unvisited@, indegree.table@, frontier@);'),
+           G('before:unvisited.scatter_assign_constant(', '''let ghost fr0 = frontier@; let ghost unv0 = unvisited@; let ghost ord0 = order@; let ghost ind0 = indegree.table@;
+        proof { assert(lawful_clone::<usize>()); lemma_kahn_frontier_small(*adjacency, ord0, unv0, ind0, fr0, depth as int); }'''),
+           ('before:.scatter_sub_assign(', 'lemma_kahn_sub(*adjacency, unv0, ind0, fr0, reachable_ix.table@, reachable_count.table@);'),
+           G('before:frontier = {', '''let ghost ind1 = indegree.table@;
+        proof {
+            assert(reachable_ix.table@.len() <= usize::MAX) by { vstd::std_specs::vec::axiom_spec_len(&reachable_ix.table.0); }
+            lemma_ext_all(kseq(ind1, reachable_ix.table@)); lemma_zeros_props(kseq(ind1, reachable_ix.table@), reachable_ix.table@.len() as int);
+        }'''),
+           G('before:frontier = filter::<K>(', '''let ghost f1 = frontier@;
+        proof {
+            lemma_ext_all(kseq(unvisited@, f1));
+            assert forall|i: int| 0 <= i < f1.len() implies (#[trigger] kseq(unvisited@, f1)[i]) <= 1 by {
+                assert(f1[i] < adjacency.sources.table@.len());
+                assert(unv0[f1[i] as int] <= 1);
+                assert(last_write(fr0, f1[i] as int, fr0.len() as int) >= 0 || unvisited@[f1[i] as int] == unv0[f1[i] as int]);
+            }
+            lemma_psum_le(kseq(unvisited@, f1), 1, f1.len() as int);
+        }'''),
+           ('after:frontier = filter::<K>(', 'lemma_kahn_step(*adjacency, ord0, unv0, ind0, fr0, depth as int, order@, unvisited@, reachable_ix.table@, reachable_count.table@, ind1, f1, frontier@);'),
+           ('end', 'lemma_psum_mono(unvisited@, 0, unvisited@.len() as int); lemma_kahn_exit(*adjacency, order@, unvisited@, indegree.table@, frontier@, depth as int);')])
